@@ -199,6 +199,10 @@ func runC10(p *Prog, r *Report) {
 		}
 		r.End()
 	}
+	if want("C10.6") {
+		// the group leader writes ONE journal record for the whole group: all members survive a crash or none
+		ruleJournalWrite(p, r, "C10.6")
+	}
 	if want("C10.5") {
 		r.Begin("C10.5", "E-SIB", "Write and putRec agree on their lock-acquisition selects (same case sets, with and without merge)", 2)
 		sig := func(fn *ssa.Function) []string {
